@@ -147,7 +147,7 @@ func runEngineB(p *plan, tier string, base uint64, workers int, scale float64, r
 		// verify in a fresh world
 		vr := engb.RunOne(wl, sim.NewReplayTape(v.Seed, tape), filepath.Join(scratch, "verify"), bin, true, nil)
 		if vr.Harness != "" || vr.Class != v.Class {
-			sum.Infra = append(sum.Infra, fmt.Sprintf("non-replayable: %s seed %d class %q replayed as %q %s", wl, v.Seed, v.Class, vr.Class, vr.Harness))
+			sum.Infra = append(sum.Infra, fmt.Sprintf("non-replayable: %s seed %d class %q replayed as %q %s; original detail: %s", wl, v.Seed, v.Class, vr.Class, vr.Harness, v.Detail))
 			continue
 		}
 		rp := &sim.Replay{Engine: "B", Property: p.ID, Workload: wl, Seed: v.Seed, Tape: tape, Class: v.Class, Detail: vr.Detail, Minimised: isMin, Needs: strings.Join(vr.Needs, ","), TraceHash: fmt.Sprintf("%x", vr.TraceHash)}
